@@ -275,6 +275,16 @@ def run(ctx):
                 v = m
         if balanced(v):
             cases.append("de\t%d\t%s" % (ti, v))
+    # harness-only types 36..38: enums with a `#[serde(other)]` catch-all / an alias (variant names outside serde's static list); judged against
+    # serde_json alone
+    names = ["Known", "Unknown", "Other", "", "known", "A", "B", "b", "Rest", "Zed", "é"]
+    vals = [G.enc_str(n) for n in names] + ["{ %s n }" % G.enc_str(n) for n in names] + ["{ %s u1 }" % G.enc_str(n) for n in ("B", "b", "A", "Zed", "Known")] + \
+           ["n", "u1", "[ ]", "{ }", "{ %s n %s n }" % (G.enc_str("Known"), G.enc_str("Zed"))]
+    for v in vals:
+        cases.append("de\t36\t" + v)
+        cases.append("de\t37\t[ " + v + " ]")
+        cases.append("de\t37\t[ " + v + " " + rng.choice(vals) + " ]")
+        cases.append("de\t38\t{ s6b " + v + " }")
     if getattr(ctx, "replay", None):
         cases = [ctx.replay["case"]]
     impl = C.run_parallel([ctx.harness, "serde"], cases)
@@ -317,6 +327,8 @@ def run(ctx):
         if kind == "ser" and has_nonstring_key(resolve_hr(c)):
             # serde_json's stringification of non-string keys is outside the property and outside the repository: library side only
             same = f.get("var") == fm.get("var")
+        elif kind == "de" and int(c.split("\t")[1]) >= 36:
+            same = True               # harness-only types: serde_json was the judge above
         else:
             same = i == m
         if not same:
